@@ -15,9 +15,9 @@ from vlib.runner import HERE, Outcome, hyp_search
 
 ID = "C12"
 LEVEL = "exploration"
-RULE = ("Each shard fixes a pool of 14 documents (generated ones that deliberately share object numbers, the resource "
+RULE = ("Each shard fixes a pool of 16 documents (generated ones that deliberately share object numbers, the resource "
         "name /F1, BaseFont names, base encodings differing only in /Differences, predefined CMap names with different "
-        "ToUnicode maps, multi-page members, a grid of equidistant labels, two Type0 fonts sharing one descendant, Type1 fonts with different built-in encodings, a /Font dictionary mixing indirect and direct fonts, two documents encrypted through the same crypt filter name with different keys, a document whose xref table carries a wrong offset and marks an object free whose body is still in the file; plus repository samples incl. an AES-encrypted one and CJK ones). "
+        "ToUnicode maps, multi-page members, a grid of equidistant labels, two Type0 fonts sharing one descendant, Type1 fonts with different built-in encodings, a /Font dictionary mixing indirect and direct fonts, two documents encrypted through the same crypt filter name with different keys, a document whose xref table carries a wrong offset and marks an object free whose body is still in the file, a document whose pages leave the graphics-state stack unbalanced (unclosed q with a non-default colour space, stray Q on the next page), a document whose pages share one zero-length content stream and paint an empty form twice; plus repository samples incl. an AES-encrypted one and CJK ones). "
         "Hypothesis draws call histories (model-based op lists) run in one long-lived process: extract_text, "
         "extract_pages to completion, open a page iterator, advance any open iterator (interleaving documents), extract "
         "a single page by page_numbers, extract_text_to_fp(xml); each with caching on/off and LAParams default or "
@@ -138,6 +138,22 @@ def gen_doc(kind, variant):
         objs[15] = W.simple_font("SoundFont")
         objs[40] = W.Stream({}, b"BT /F2 12 Tf 50 720 Td (GHOST) Tj ET")
         pages = [b"BT /F1 12 Tf 50 700 Td (Hello %d) Tj ET" % variant, b"BT /F2 12 Tf 50 650 Td (World) Tj ET"]
+    elif kind == "unbalanced":
+        # graphics-state stack left unbalanced: page one ends inside q .. (with a non-default colour space), page two
+        # starts with a stray Q and sets a colour in the initial colour space: each page starts from the initial state
+        objs[10] = W.simple_font("UnbalFont")
+        ops = [b"0 0 0 1 k 0 1 0 RG", b"/DeviceRGB cs 1 0 0 sc", b"0.2 0.4 0.6 0.8 K"][variant % 3]
+        pages = [ops + b" q q BT /F1 12 Tf 50 700 Td (Open %d) Tj ET" % variant,
+                 b"Q 0.5 sc 0.25 SC BT /F1 12 Tf 50 650 Td (Stray) Tj ET 10 10 100 50 re B",
+                 b"Q Q q 0.75 sc BT /F1 12 Tf 50 600 Td (Third) Tj ET"]
+    elif kind == "sharedempty":
+        # one zero-length stream object used twice (first in /Contents of two pages) and an empty form painted twice:
+        # a cached object that decodes to nothing is as valid the second time as the first
+        objs[10] = W.simple_font("EmptyFont")
+        objs[41] = W.Stream({}, b"")
+        objs[42] = W.Stream(W.D(Type=W.N("XObject"), Subtype=W.N("Form"), BBox=[0, 0, 10, 10]), b"")
+        pages = [b"/E0 Do BT /F1 12 Tf 50 700 Td (One %d) Tj ET /E0 Do" % variant,
+                 b"BT /F1 12 Tf 50 650 Td (Two) Tj ET /E0 Do"]
     elif kind == "crypt":
         # encrypted with the standard security handler, crypt filter /StdCF in every variant but different file keys
         # (and RC4 vs AES): per-document decryption state must not be shared between open documents
@@ -156,6 +172,11 @@ def gen_doc(kind, variant):
         kids.append(W.R(21 + 2 * i))
     objs[1] = W.D(Type=W.N("Catalog"), Pages=W.R(2))
     objs[2] = W.D(Type=W.N("Pages"), Kids=kids, Count=len(kids))
+    if kind == "sharedempty":
+        for i in range(len(pages)):
+            pg = objs[21 + 2 * i]
+            pg[b"Contents"] = [W.R(41), pg[b"Contents"]] if (i + variant) % 2 == 0 else [pg[b"Contents"], W.R(41)]
+            pg[b"Resources"] = {b"Font": {b"F1": W.R(10)}, b"XObject": {b"E0": W.R(42)}}
     if kind == "damaged":
         # the last page: /Contents [40 0 R <its own stream>]
         last = 21 + 2 * (len(pages) - 1)
@@ -212,6 +233,8 @@ def make_pool(rnd):
     pool.append(["gen", "fontfile", fv[1]])
     pool.append(["gen", "mixedfonts", rnd.randrange(2)])
     pool.append(["gen", "damaged", rnd.randrange(2)])
+    pool.append(["gen", "unbalanced", rnd.randrange(3)])
+    pool.append(["gen", "sharedempty", rnd.randrange(2)])
     cv = rnd.sample(range(4), 2)
     pool.append(["gen", "crypt", cv[0]])
     pool.append(["gen", "crypt", cv[1]])
@@ -261,12 +284,25 @@ def compute_all(data, pw):
     from pdfminer.high_level import extract_pages, extract_text, extract_text_to_fp
 
     out = {}
-    for la in LAS:
-        out["text:" + la] = extract_text(io.BytesIO(data), password=pw, laparams=mk_la(la))
-        out["pages:" + la] = [canon_page(p) for p in extract_pages(io.BytesIO(data), password=pw, laparams=mk_la(la))]
+
+    def attempt(key, fn):
+        # a pool member that cannot be extracted in the fresh process is recorded as such: whatever a history then
+        # produces for it (a value, or the exception again) is reported against this baseline by run_case
+        try:
+            out[key] = fn()
+        except Exception as e:
+            out[key] = {"$exc": "%s: %s" % (type(e).__name__, e)}
+
+    def xml(la):
         fp = io.StringIO()
         extract_text_to_fp(io.BytesIO(data), fp, output_type="xml", codec=None, laparams=mk_la(la), password=pw)
-        out["xml:" + la] = fp.getvalue()
+        return fp.getvalue()
+
+    for la in LAS:
+        attempt("text:" + la, lambda: extract_text(io.BytesIO(data), password=pw, laparams=mk_la(la)))
+        attempt("pages:" + la, lambda: [canon_page(p) for p in extract_pages(io.BytesIO(data), password=pw,
+                                                                             laparams=mk_la(la))])
+        attempt("xml:" + la, lambda: xml(la))
     return out
 
 
